@@ -176,6 +176,13 @@ DAGS["ab_dfix_first_p_c"] = T(["A", "B", "P", "C"], [("A", "P", ["dfix"]), ("B",
 # input first; delay <= steps so that the requests reaching the shared source never go backwards)
 DAGS["a_p_two_links_dfix_b"] = T(["A", "P", "B"], [("A", "P"), ("P", "B", ["dfix"], {"out": "o"}),
                                                    ("P", "B", [], {"out": "o"})], delays_le_steps=True, offsets=False, order=[2, 1, 0])
+# acyclic couplings in which a pull-based component is reached twice in one scheduling pass
+PULL_DIAMONDS = {
+    # one consumer reading two outputs of one pull-based component
+    "a_p_two_outputs_c": T(["A", "P", "C"], [("A", "P"), ("P", "C", [], {"out": "o1"}), ("P", "C", [], {"out": "o2"})]),
+    # diamond of pull-based components: A >> P >> {PQ, PR} >> C
+    "a_p_diamond_c": T(["A", "P", "PQ", "PR", "C"], [("A", "P"), ("P", "PQ"), ("P", "PR"), ("PQ", "C"), ("PR", "C")]),
+}
 # adaptive stepping: C's step length follows the update count of its controller K (which it also reads)
 ADAPTIVE = T(["A", "K", {"name": "C", "nsteps": 2, "step_by": "K"}], [("A", "C"), ("K", "C")])
 # two links with their own delay-to-pull adapter into one consumer (the adapters' pull histories are per link)
